@@ -1,7 +1,202 @@
 import ASV.Drv.J
+import ASV.Spec.WriteSafety
 namespace ASV.Drv.C20
-open Lean ASV ASV.Drv
+open Lean ASV ASV.Drv ASV.WriteSafety
 
-def handle (_j : Json) : R Json := throw "C20: no model yet"
+/-! JSON forms (see harness/props/c20.py) -/
+
+partial def valOfJson (j : Json) : R PyVal := do
+  let tag ← asStr (← idx j 0)
+  match tag with
+  | "none" => return .none
+  | "bool" => return .bool (← asBool (← idx j 1))
+  | "int" => return .int (← asInt (← idx j 1))
+  | "str" => return .str (← asStr (← idx j 1))
+  | "list" => return .list (← listOf valOfJson (← idx j 1))
+  | "dict" => return .dict (← listOf (fun kv => do return (← asStr (← idx kv 0), ← valOfJson (← idx kv 1))) (← idx j 1))
+  | "seq" => return .seq (← asStr (← idx j 1))
+  | "seqconv" => return .seqConv (← asStr (← idx j 1)) (← valOfJson (← idx j 2))
+  | "conv" => return .conv (← valOfJson (← idx j 1))
+  | "convraises" => return .convRaises (← asStr (← idx j 1))
+  | "dunder" => return .dunder (← valOfJson (← idx j 1))
+  | "dunderraises" => return .dunderRaises (← asStr (← idx j 1))
+  | "both" => return .both (← valOfJson (← idx j 1)) (← valOfJson (← idx j 2))
+  | "opaque" => return .opaque
+  | t => throw s!"unknown value tag {t}"
+
+def modOfJson (j : Json) : R ModSpec := do
+  match ← asStr (← idx j 0) with
+  | "none" => return .none
+  | "mod" => return .mod (← valOfJson (← idx j 1))
+  | "raises" => return .raises (← asStr (← idx j 1))
+  | "invalid" => return .invalid
+  | t => throw s!"unknown module tag {t}"
+
+def dictOfJson (j : Json) : R ModDict :=
+  listOf (fun kv => do return (← asStr (← idx kv 0), ← modOfJson (← idx kv 1))) j
+
+def recOfJson (j : Json) : R RecSpec :=
+  match j with
+  | .null => pure ⟨none⟩
+  | _ => do return ⟨some (← asStr j)⟩
+
+def tokOfJson (j : Json) : R Tok :=
+  match j with
+  | .str "null" => pure .null
+  | .str "[" => pure .lbrack
+  | .str "]" => pure .rbrack
+  | .str "{" => pure .lbrace
+  | .str "}" => pure .rbrace
+  | _ => do
+    match ← asStr (← idx j 0) with
+    | "raw" => return .raw (← asStr (← idx j 1))
+    | "bool" => return .bool (← asBool (← idx j 1))
+    | "int" => return .int (← asInt (← idx j 1))
+    | "str" => return .str (← asStr (← idx j 1))
+    | "key" => return .key (← asStr (← idx j 1))
+    | t => throw s!"unknown token {t}"
+
+def tokToJson : Tok → Json
+  | .raw s => jArr [Json.str "raw", Json.str s]
+  | .null => Json.str "null"
+  | .bool b => jArr [Json.str "bool", toJson b]
+  | .int n => jArr [Json.str "int", toJson n]
+  | .str s => jArr [Json.str "str", Json.str s]
+  | .key s => jArr [Json.str "key", Json.str s]
+  | .lbrack => Json.str "["
+  | .rbrack => Json.str "]"
+  | .lbrace => Json.str "{"
+  | .rbrace => Json.str "}"
+
+def bytesToJson (b : Bytes) : Json := jArr (b.map tokToJson)
+
+def entryOfJson (j : Json) : R Entry := do
+  return ⟨← asStr (← idx j 0), ← asBool (← idx j 1), ← listOf tokOfJson (← idx j 2)⟩
+def entryToJson (e : Entry) : Json := jArr [Json.str e.name, toJson e.isDir, bytesToJson e.content]
+def dirOfJson (j : Json) : R Dir := listOf entryOfJson j
+def dirToJson (d : Dir) : Json := jArr (d.map entryToJson)
+
+def targetOfJson (j : Json) : R Target :=
+  match j with
+  | .str "absent" => pure .absent
+  | .str "file" => pure .file
+  | _ => do return .dir (← dirOfJson j)
+def targetToJson : Target → Json
+  | .absent => Json.str "absent"
+  | .file => Json.str "file"
+  | .dir es => dirToJson es
+
+def handleOfJson (j : Json) : R Handle := do
+  match ← asStr (← idx j 0) with
+  | "path" => return .path (← asStr (← idx j 1))
+  | "io" => return .io (← asStr (← idx j 1))
+  | "absent" => return .absent
+  | t => throw s!"unknown handle {t}"
+
+def evOfJson (j : Json) : R Ev :=
+  match j with
+  | .str "logerr" => pure .logErr
+  | .str "mkdir" => pure .mkdir
+  | .str "prepared" => pure .prepared
+  | .str "annotated" => pure .annotated
+  | .str "outputs" => pure .outputsWritten
+  | _ => do
+    match ← asStr (← idx j 0) with
+    | "rec" => return .recConv (← asNat (← idx j 1))
+    | "mod" => return .modConv (← asNat (← idx j 1)) (← asNat (← idx j 2))
+    | "open" => return .openW (← asStr (← idx j 1))
+    | "write" => return .write (← asStr (← idx j 1))
+    | "remove" => return .remove (← asStr (← idx j 1))
+    | t => throw s!"unknown event {t}"
+
+def evToJson : Ev → Json
+  | .recConv i => jArr [Json.str "rec", toJson i]
+  | .modConv i k => jArr [Json.str "mod", toJson i, toJson k]
+  | .logErr => Json.str "logerr"
+  | .openW n => jArr [Json.str "open", Json.str n]
+  | .write n => jArr [Json.str "write", Json.str n]
+  | .remove n => jArr [Json.str "remove", Json.str n]
+  | .mkdir => Json.str "mkdir"
+  | .prepared => Json.str "prepared"
+  | .annotated => Json.str "annotated"
+  | .outputsWritten => Json.str "outputs"
+
+def errToJson : Option Exn → Json
+  | none => Json.null
+  | some e => Json.str e
+def errOfJson (j : Json) : R (Option Exn) :=
+  match j with
+  | .null => pure none
+  | _ => do return some (← asStr j)
+
+def resultsOfJson (j : Json) : R Results := do
+  return ⟨← listOf recOfJson (← fld j "records"), ← listOf dictOfJson (← fld j "results"),
+          ← valOfJson (← fld j "timings")⟩
+
+def outToJson (o : Out) : Json :=
+  jObj [("trace", jArr (o.trace.map evToJson)), ("err", errToJson o.err), ("dir", dirToJson o.dir)]
+def outOfJson (j : Json) : R Out := do
+  return ⟨← listOf evOfJson (← fld j "trace"), ← errOfJson (← fld j "err"), ← dirOfJson (← fld j "dir")⟩
+def prepOutToJson (o : PrepOut) : Json :=
+  jObj [("trace", jArr (o.trace.map evToJson)), ("err", errToJson o.err), ("target", targetToJson o.target)]
+def prepOutOfJson (j : Json) : R PrepOut := do
+  return ⟨← listOf evOfJson (← fld j "trace"), ← errOfJson (← fld j "err"), ← targetOfJson (← fld j "target")⟩
+
+def prepInOfJson (j : Json) : R PrepIn := do
+  let logName ← match fldD j "log" Json.null with
+    | .null => pure none
+    | l => do pure (some (← asStr l))
+  return ⟨← targetOfJson (← fld j "target"), ← strF j "input", logName⟩
+
+/-- spec verdict on the implementation's own output, `false` when the harness could not observe one -/
+def onImpl {α} (j : Json) (parse : Json → R α) (spec : α → Bool) : Bool :=
+  match j.getObjVal? "impl" with
+  | .ok (.null) => false
+  | .ok i => match parse i with | .ok o => spec o | .error _ => false
+  | .error _ => false
+
+def handle (j : Json) : R Json := do
+  match ← strF j "kind" with
+  | "write" =>
+    let r ← resultsOfJson (← fld j "results")
+    let h ← handleOfJson (← fld j "handle")
+    let d ← dirOfJson (← fld j "dir")
+    match ← strF j "fn" with
+    | "write_to_file" =>
+      let o := writeToFile r h d
+      return jObj [("model", outToJson o),
+        ("spec", jObj [("fault", toJson r.hasFault),
+                       ("model_ok", toJson (specWriteToFile r h d o)),
+                       ("impl_ok", toJson (onImpl j outOfJson (specWriteToFile r h d)))]),
+        ("scope", toJson true)]
+    | "dump_records" =>
+      let o := dumpRecords r.records r.results h d
+      return jObj [("model", outToJson o),
+        ("spec", jObj [("fault", toJson (match h with
+                          | .absent => callFault r.records r.results
+                          | _ => conversionFault r.records r.results)),
+                       ("model_ok", toJson (specDumpRecords r.records r.results h d o)),
+                       ("impl_ok", toJson (onImpl j outOfJson (specDumpRecords r.records r.results h d)))]),
+        ("scope", toJson true)]
+    | f => throw s!"unknown fn {f}"
+  | "prepare" =>
+    let p ← prepInOfJson j
+    let o := prepareOutputDir p
+    return jObj [("model", prepOutToJson o),
+      ("spec", jObj [("accepts", toJson (specAccepts p)),
+                     ("model_ok", toJson (specPrepare p o)),
+                     ("impl_ok", toJson (onImpl j prepOutOfJson (specPrepare p)))]),
+      ("scope", toJson true)]
+  | "pipeline" =>
+    let p : PipeIn := ⟨← prepInOfJson j, ← resultsOfJson (← fld j "results"), ← strF j "json"⟩
+    let o := runPipeline p
+    return jObj [("model", prepOutToJson o),
+      ("spec", jObj [("accepts", toJson (specAccepts p.prep)), ("fault", toJson p.results.hasFault),
+                     ("model_ok", toJson (specPipeline p o)),
+                     ("impl_ok", toJson (onImpl j prepOutOfJson (specPipeline p)))]),
+      ("scope", toJson true)]
+  | "regiongbk" =>
+    return jObj [("model", toJson (isRegionGbk (← strF j "name")))]
+  | k => throw s!"unknown kind {k}"
 
 end ASV.Drv.C20
